@@ -399,7 +399,21 @@ class Run:
                 oka, res, outa = audit_assumptions(self.prop)
                 self.theorem_axioms = res
                 self.oblige('print_assumptions_allowlist', oka, outa[-3000:] if not oka else '')
+                if self.tier == 'thorough':
+                    self.coqchk_stage()
         return all(o[1] for o in self.obligations)
+
+    def coqchk_stage(self):
+        """thorough tier: independent re-check of the compiled property file and everything it depends on"""
+        rc, out = sh(['coqchk', '-o', '-silent', '-Q', str(COQ), 'WebP', 'WebP.Properties.%s' % self.prop], cwd=COQ, timeout=3000)
+        m = re.search(r'\* Axioms:(.*?)\n\s*\n\* Constants/Inductives relying on type-in-type:(.*?)\n\s*\n\* Constants/Inductives relying on unsafe \(co\)fixpoints:(.*?)\n\s*\n\* Inductives whose positivity is assumed:(.*?)\n', out, flags=re.S)
+        summary = [x.strip() for x in m.groups()] if m else None
+        ok = rc == 0 and summary is not None and all(x == '<none>' or all(a.strip() in AXIOM_ALLOW for a in x.split('\n') if a.strip()) for x in summary[:1]) \
+            and all(x == '<none>' for x in summary[1:])
+        self.coqchk = {'rc': rc, 'axioms': summary[0] if summary else None, 'type_in_type': summary[1] if summary else None,
+                       'unsafe_fixpoints': summary[2] if summary else None, 'assumed_positivity': summary[3] if summary else None}
+        self.oblige('coqchk(independent checker; axioms / type-in-type / unsafe fixpoints / assumed positivity all <none>)', ok, out[-1500:] if not ok else '')
+        return ok
 
     def tools_stage(self, release=False):
         with Lock():
@@ -433,6 +447,7 @@ class Run:
             'distinct_nontrivial': int(distinct),
             'rule': rule,
             'samples': samples[:12] if samples else ['(none)'],
+            'coqchk': getattr(self, 'coqchk', 'not run in the quick tier (thorough tier runs `coqchk -o -silent` on the property closure)'),
             'known_findings_reported': self.known_lines,
             'notes': self.notes,
         }
